@@ -470,6 +470,7 @@ func TestDrive_C02(t *testing.T) {
 			abortWhileExhausted(rng, n/5, add)
 			visitedBetweenOuterAttempts(rng, n/4, add)
 			nestedRetryExhaustedByDuration(rng, n/5, add)
+			unlimitedRetriesWithMaxDuration(rng, n/5, add)
 		})
 }
 
@@ -790,6 +791,24 @@ func timeoutCutsInnerWaitOnLaterAttempts(rng *Rng, n int, add func(InstD, []ReqD
 		rq := ReqD{Stack: stack, CtxKey: -1, Entry: Pick(rng, []string{"GetAsync", "RunAsync", "GetWithExecutionAsync", "RunWithExecutionAsync", "Get", "GetWithExecution"}),
 			Script: []FnStepD{{Out: OutD{Err: &ErrD{K: "Sent", A: 0}}, Dur: 128}}}
 		add(g.inst, []ReqD{rq}, "timeout-cuts-inner-wait")
+	}
+}
+
+// "retry as often as needed, but for at most d": unlimited retries with a max duration (alone, and inside a timeout / fallback)
+func unlimitedRetriesWithMaxDuration(rng *Rng, n int, add func(InstD, []ReqD, string)) {
+	for i := 0; i < n; i++ {
+		dur := int64(1+rng.Intn(3))*512 + 7
+		rp := PolD{K: "Retry", MaxRetries: -1, MaxAttempts: rng.Bool(), MaxDuration: dur*int64(2+rng.Intn(5)) + 300, Delay: Pick(rng, []int64{0, 0, 512}), ReturnLast: rng.Chance(30)}
+		stack := []PolD{rp}
+		switch rng.Intn(4) {
+		case 0:
+			stack = []PolD{{K: "Fallback", FBKind: "WrapErr"}, rp}
+		case 1:
+			stack = []PolD{{K: "Timeout", Limit: 1 << 30}, rp}
+		}
+		rq := ReqD{Stack: stack, CtxKey: -1, Entry: Pick(rng, append(append([]string{}, execEntries...), plainEntries...)),
+			Script: []FnStepD{{Out: OutD{Err: &ErrD{K: "Sent", A: 0}}, Dur: dur}}}
+		add(InstD{}, []ReqD{rq}, "unlimited-retries-max-duration")
 	}
 }
 
